@@ -136,8 +136,13 @@ func c15CliRun(t *testing.T, cfg c15CliCfg, depth int, choose func(step, n int) 
 				}
 			}
 			evs = append(evs, c15Ev{kind: "byte", what: "pingack"}, c15Ev{kind: "byte", what: "settings"})
-			if len(open) < c15CliMaxStreams {
+			if len(open) == 0 {
 				evs = append(evs, c15Ev{kind: "open"})
+				// a burst: two NewStream calls back-to-back, both registered before
+				// the transport's writer has handled the first one's HEADERS
+				if !cfg.permit { // with PermitWithoutStream streams do not matter to keepalive: one stream event suffices
+					evs = append(evs, c15Ev{kind: "open2"})
+				}
 			}
 			if len(open) > 0 {
 				evs = append(evs, c15Ev{kind: "close"})
@@ -185,6 +190,47 @@ func c15CliRun(t *testing.T, cfg c15CliCfg, depth int, choose func(step, n int) 
 					return
 				}
 				open = append(open, s)
+				if !applicable {
+					applicable, since = true, time.Now()
+					toggles++
+				}
+			case "open2":
+				// No synctest.Wait() (and nothing that blocks) between the two calls:
+				// the bubble's other goroutines, the transport's writer included, do
+				// not run until the Wait below.
+				before := len(peer.Log())
+				s1, err1 := tr.NewStream(ctx, &CallHdr{Host: "x", Method: "/s/m"}, nil)
+				s2, err2 := tr.NewStream(ctx, &CallHdr{Host: "x", Method: "/s/m"}, nil)
+				if err1 != nil || err2 != nil {
+					res.engine = fmt.Sprintf("NewStream x2 on a live transport: %v / %v", err1, err2)
+					return
+				}
+				// harness validity (not part of the oracle): both streams are
+				// registered and the writer has not yet put either HEADERS on the wire
+				tr.mu.Lock()
+				nact := len(tr.activeStreams)
+				tr.mu.Unlock()
+				if nact != 2 || len(peer.Log()) != before {
+					// The Go scheduler preempted this goroutine between the two calls
+					// (rare, wall-clock time slice under CPU oversubscription) and the
+					// writer ran: not the burst this event stands for. The driver
+					// re-runs the history.
+					res.retry = fmt.Sprintf("open2: the writer ran between the two NewStream calls: active=%d, frames on the wire since the first call=%d", nact, len(peer.Log())-before)
+					return
+				}
+				synctest.Wait()
+				nh := 0
+				for _, f := range peer.Log()[before:] {
+					if f.Type == "HEADERS" {
+						nh++
+					}
+				}
+				if nh != 2 {
+					res.engine = fmt.Sprintf("open2: %d HEADERS frames reached the peer in this step, want 2", nh)
+					return
+				}
+				open = append(open, s1, s2)
+				res.stat("burst_opens", 1)
 				if !applicable {
 					applicable, since = true, time.Now()
 					toggles++
@@ -270,7 +316,7 @@ func TestVerif_C15_Client(t *testing.T) {
 	r := vk.Start(t, "c15_client", "exploration", P)
 	defer r.Finish()
 	depth := r.Pick(6, 8)
-	r.Rule(P, fmt.Sprintf("(a) client keepalive: for each of Time=10s x Timeout in {3s,10s,15s} x PermitWithoutStream in {f,t}, every event history of length %d (runs of consecutive advances only in non-decreasing order: adjacent advances commute, the pruned orders reach the same state and their intermediate instants are checked on kept prefixes; oracle after every event, so shorter histories are covered as prefixes; a history ends when the client closes the connection) over {advance d for d in {1s, Time-1ms, Time, Time+1ms, Timeout-1ms, Timeout+1ms}, raw server sends a PING ack, raw server sends a SETTINGS frame, application opens a stream (<=%d open), application closes the newest stream}; real http2Client against a scripted raw server that never answers on its own, one synctest bubble per history, exact virtual time; non-trivial = the client sent at least one keepalive PING or closed the connection; distinct by (configuration, event list)", depth, c15CliMaxStreams))
+	r.Rule(P, fmt.Sprintf("(a) client keepalive: for each of Time=10s x Timeout in {3s,10s,15s} x PermitWithoutStream in {f,t}, every event history of length %d (runs of consecutive advances only in non-decreasing order: adjacent advances commute, the pruned orders reach the same state and their intermediate instants are checked on kept prefixes; oracle after every event, so shorter histories are covered as prefixes; a history ends when the client closes the connection) over {advance d for d in {1s, Time-1ms, Time, Time+1ms, Timeout-1ms, Timeout+1ms}, raw server sends a PING ack, raw server sends a SETTINGS frame, application opens a stream (only when none is open), application opens two streams in one step (two NewStream calls back-to-back with no quiescence in between, only when none is open: both are registered before the transport's writer handles the first HEADERS; the only way to %d open streams; offered only with PermitWithoutStream=false, where streams decide applicability), application closes the newest stream}; real http2Client against a scripted raw server that never answers on its own, one synctest bubble per history, exact virtual time; non-trivial = the client sent at least one keepalive PING or closed the connection; distinct by (configuration, event list)", depth, c15CliMaxStreams))
 	r.Assume(P, "clock: testing/synctest virtual time; 'received byte' instants are the instants the raw peer wrote (in-memory pipe, read at the same virtual instant); an event at the same instant as a timer expiry is ordered after it (the +-1ms deltas cover the other order)")
 	r.Assume(P, "client, timer quantisation (from reading the keepalive loop: received-byte activity is sampled only when the loop's timer fires, and the timer is not running while the loop is dormant): when the last byte was received after establishment while keepalive was NOT applicable (no stream, PermitWithoutStream=false), the wake-up PING's first timer period min(Time,Timeout) may be spent noticing that stale byte, so the allowed bound is Timeout after the later of (last byte + Time) and (applicable-since + min(Time,Timeout)); in every other case the bound of the statement is checked with zero slack. Histories closed after the literal bound but inside this slack are counted in closed_after_literal_bound_within_stated_slack")
 	r.Assume(P, "a connection closed while keepalive is not applicable (a PING sent earlier, while a stream was open, timed out) is neither required nor forbidden by the statement unless the connection was healthy")
